@@ -19,6 +19,9 @@ NOTE = "Decides the sign/convention layer and guards; the division algorithms un
 
 
 def run(res, programs, tier):
+    for P in programs:
+        if "dashu_int" in P.units:
+            _r02_5(res, P, P.name)
     intalg.r_sign_tables(res, programs, "R02.3", intalg.DIV_OPS)
     intalg.r01_2(res, programs, "R02.2", "div")
     from . import c19
@@ -71,6 +74,121 @@ def _r02_4(res, P, cfgname):
             else:
                 res.ok("R02.4", cfgname, key)
     res.floor("R02.4", cfgname, n, 4, "division kernel calls in div_const")
+
+
+# ---------------------------------------------------------------------------------------------
+# R02.5  precondition of the 2-by-1 division kernel.  `Normalized2by1Divisor::div_rem_2by1(n)` requires
+# high(n) < d (the quotient must fit one word); num-modular only debug_asserts it.  At every call site
+# the high word of the dividend must be bounded by shape:
+#   remainder  - the remainder (.1) of an earlier division by a normalised divisor, or 0-initialised and
+#                loop-carried from such remainders;
+#   overflow   - the word shifted out by shl_dword(x, shift) / (extend_word(w) << shift): < 2^shift <= d;
+#   guarded    - a value defined as `hi - d` on the `hi >= d` edge and `hi` on the `hi < d` edge
+#                (one conditional subtraction suffices because d has its top bit set).
+# Found F26: ConstSingleDivisor::rem_dword passed an arbitrary double word when shift == 0.
+REVIEWED_2BY1 = {
+    "dashu_int::fmt::non_power_two::PreparedDword::new": "q = [q0, q1] << shift with q1 < 2^(2*shift) and shift <= 4 (argument in the source comment): high(q) < 2^(3*shift) < range_per_word << shift",
+}
+REM_CALLS = ("::div_rem_2by1", "::div_rem_1by1", "::fast_rem_by_normalized_word", "::div_rem_3by2")
+
+
+def _hi_ok(t, S, cfg, du, fn, depth=0):
+    from . import sym as _sym
+    t = _sym.strip_casts(t)
+    if not isinstance(t, tuple) or depth > 6:
+        return None
+    if t[0] == "const" and t[1] == 0:
+        return "zero"
+    if t[0] == "place" and isinstance(t[1], tuple) and t[1][0] == "call":
+        cp = t[1][1]
+        if cp.endswith(REM_CALLS) and t[2] and t[2][0] == ".1":
+            return "remainder of " + cp.rsplit("::", 1)[-1]
+        if cp.endswith("::shl_dword") and t[2] and t[2][0] == ".2":
+            return "word shifted out by shl_dword"
+    if t[0] == "call" and t[1].endswith("::fast_rem_by_normalized_word"):
+        return "remainder of fast_rem_by_normalized_word"
+    if t[0] == "var":
+        whys = []
+        for (bb, idx, node) in du.defs.get(t[1], []):
+            if bb not in cfg.reachable():
+                continue
+            if idx == "t":
+                cp = mir.callee_path(node) or ""
+                if cp.endswith("::fast_rem_by_normalized_word"):
+                    whys.append("remainder")
+                    continue
+                if cp.endswith("::shift::shl_in_place"):
+                    whys.append("bits shifted out by the normalising shl_in_place (< 2^shift)")
+                    continue
+                return None
+            if node["k"] != "as":
+                return None
+            if node["p"].get("p"):
+                # tuple destructuring of a call result into the local is not expected here
+                return None
+            rv = S.rvalue(node["rv"])
+            rv0 = _sym.strip_casts(rv)
+            w = _hi_ok(rv0, S, cfg, du, fn, depth + 1)
+            if w:
+                whys.append(w)
+                continue
+            # conditional subtraction:  hi - d on the hi >= d edge, hi itself on the hi < d edge
+            cons = [c for c in guards.constraints_at(S, cfg, bb) if c[0] == "rel"]
+            ok = False
+            if rv0[0] == "bin" and rv0[1] == "Sub":
+                a, d = _sym.strip_casts(rv0[2]), _sym.strip_casts(rv0[3])
+                if any((op in ("Ge", "Gt") and _sym.strip_casts(A) == a and _sym.strip_casts(B) == d) or
+                       (op in ("Le", "Lt") and _sym.strip_casts(B) == a and _sym.strip_casts(A) == d) for _, op, A, B in cons) and _is_norm_divisor(d):
+                    ok = True
+            else:
+                if any((op == "Lt" and _sym.strip_casts(A) == rv0 and _is_norm_divisor(_sym.strip_casts(B))) or
+                       (op == "Gt" and _sym.strip_casts(B) == rv0 and _is_norm_divisor(_sym.strip_casts(A))) for _, op, A, B in cons):
+                    ok = True
+            if not ok:
+                return None
+            whys.append("guarded by a comparison with the normalised divisor")
+        return "; ".join(sorted(set(whys))) if whys else None
+    return None
+
+
+def _is_norm_divisor(t):
+    return isinstance(t, tuple) and t[0] == "call" and t[1].endswith(("::normalized_divisor", "::divisor"))
+
+
+def _r02_5(res, P, cfgname):
+    from . import sym as _sym
+    res.rule("R02.5", "every call of the 2-by-1 division kernel passes a dividend whose high word is bounded by shape (an earlier remainder, the overflow word of the normalising shift, or a conditional subtraction of the divisor)")
+    n = 0
+    for f in P.fns("dashu_int"):
+        b = f.get("mir")
+        if not b:
+            continue
+        S = cfg = du = None
+        k = 0
+        for bb, t, fr in mir.iter_calls(b):
+            cp = fr and (fr.get("rp") or fr["p"])
+            if not cp or not cp.endswith("::div_rem_2by1") or len(t["a"]) < 2:
+                continue
+            if S is None:
+                S, cfg, du = _sym.Sym(f), mir.cfg_of(b), mir.defuse_of(b)
+            k += 1
+            n += 1
+            a = _sym.strip_casts(S.operand(t["a"][1]))
+            key = "%s div_rem_2by1 #%d" % (f["p"], k)
+            why = None
+            if a[0] == "call" and a[1].endswith("::double_word") and len(a[2]) == 2:
+                why = _hi_ok(a[2][1], S, cfg, du, f)
+            elif a[0] == "bin" and a[1] == "Shl":
+                x = _sym.strip_casts(a[2])
+                if x[0] == "call" and x[1].endswith("::extend_word"):
+                    why = "extend_word(w) << shift: the high word is w >> (BITS - shift) < 2^shift"
+                elif x[0] == "call" and x[1].endswith("::double_word") and f["p"] in REVIEWED_2BY1:
+                    why = "reviewed: " + REVIEWED_2BY1[f["p"]]
+            if why:
+                res.ok("R02.5", cfgname, key, sample=dict(function=f["p"], dividend=_sym.term_str(a, 100), high_word=why))
+            else:
+                res.fail("R02.5", cfgname, key, "%s calls div_rem_2by1 with `%s`: nothing bounds the high word below the divisor (the kernel only debug_asserts it): a dividend whose high word is >= the divisor panics in debug builds and is unspecified in release builds" % (f["p"], _sym.term_str(a, 100)), mir.span_loc(t["sp"]))
+    res.floor("R02.5", cfgname, n, 10, "call sites of div_rem_2by1")
 
 
 LEVEL = LEVEL + ' Also (R02.4) the ConstDivisor path enters the long-division kernel whenever the dividend is at least as long as the divisor, and (R19.2, shared) no division step sits inside a debug assertion.'
